@@ -60,6 +60,13 @@ def rand_vals(rng, ty, n, full=False):
     return out
 
 
+def model_line(l):
+    t = l.split()
+    if t and t[0] == "put" and t[-1].startswith("@"):
+        return "put %s 0 %s %s %s" % (t[1], t[-1][1:], t[4], t[5])
+    return l
+
+
 def build(rng, enc, ty, order):
     spf = rng.choice([1, 2, 3])
     foff = rng.choice([0, 0, 1, 2])
@@ -124,6 +131,14 @@ def build(rng, enc, ty, order):
             vals = [v % 16 for v in vals]
         L.append("put %s 0 %d %s %s" % (w, s, cty, ",".join(bits(cty, v) for v in vals)))
         length = max(length, s + shift + n)
+        if w == "r" and rng.random() < 0.3:
+            # GD_HERE sequential write: continues where the last write on r stopped.
+            # ('@k' is ignored by the harness; model_line() turns it into the absolute position)
+            here = s + n
+            n2 = rng.choice([1, 2, 4])
+            vals2 = rand_vals(rng, cty, n2, full=False)
+            L.append("put r here 0 %s %s @%d" % (cty, ",".join(bits(cty, v) for v in vals2), here))
+            length = max(length, here + n2)
         k = rng.random()
         if k < 0.5:
             L.append("get r 0 0 0 100000 %s" % rt)
@@ -194,7 +209,7 @@ def run(ctx):
                     chunks.append(build(rng, enc, ty, order))
                     meta.append((enc, ty, order))
     res = streams.run_chunks(harness, chunks, "c03")
-    flat = [l for c in chunks for l in c]
+    flat = [model_line(l) for c in chunks for l in c]
     mo, _, merr = streams.run_model(gdmodel, flat)
     k = 0
     nput = nget = 0
@@ -301,7 +316,7 @@ def replay(ctx, obj):
     harness = C.build_harness("gdh", ["gdh.c"], defines=history.SMALL_BUF_DEFINES)
     lines = obj.get("script", [])
     out, rc, err = streams.run_gdh(harness, lines, "replay")
-    mo, _, _ = streams.run_model(gdmodel, lines)
+    mo, _, _ = streams.run_model(gdmodel, [model_line(l) for l in lines])
     bad = 0
     for l, a, m in list(zip(lines, out, mo))[-8:]:
         if l.startswith(("put", "get", "eof")):
